@@ -88,7 +88,7 @@ pub fn run() {
         println!("C09 replays are graph facts; re-run the check (it takes seconds) to reproduce");
         ctx.finish();
     }
-    let quick = ctx.quick();
+    let _quick = ctx.quick();
     // ---- exploration (level-synchronous, parallel over the frontier) ----
     let reset: Node = (0, 0x02);
     let mut graph: HashMap<Node, Vec<Edge>> = HashMap::new();
@@ -103,7 +103,7 @@ pub fn run() {
         let res = mc::par_map(&frontier, |n| {
             mc::catch(|| {
                 let mut m = mach::free();
-                successors(&mut m, *n, quick)
+                successors(&mut m, *n, false)
             })
         });
         let mut next = vec![];
@@ -425,8 +425,8 @@ pub fn run() {
     ctx.set("evaluations", calls);
     ctx.set("distinct_nontrivial", transitions);
     ctx.set("rule", "state = (micro address, IR); every state reachable from reset is stepped through the real trigger_clock_edge() under every input combination (16 flag states x 2 carry-outs x 3 ALU conditions x pending interrupt; x all 256 bytes at IR-loading words); transitions = distinct labelled successor edges, evaluations = real clock-edge calls");
-    ctx.set("exhaustive", !quick);
-    ctx.set("bounds", if quick { "fix-point; at IR-loading words the ALU-condition inputs (which the IR-load path cannot observe) are held at one value: 256 bytes x 16 flags x 2 interrupt" } else { "fix-point; full input product at every state" });
+    ctx.set("exhaustive", true);
+    ctx.set("bounds", "fix-point; full input product at every state (both tiers)");
     ctx.set("bfs_levels", levels);
     ctx.set("defined_opcode_reachable_states", dseen.len());
     ctx.set("fetch_states", fetch_states.len());
